@@ -82,4 +82,5 @@ def clear_maps(s):
         return None
     for a in m.GetAtoms():
         a.SetAtomMapNum(0)
-    return Chem.MolToSmiles(m)
+    # re-parse: atom maps can make otherwise equivalent ring positions look different to the stereo perception
+    return canon(Chem.MolToSmiles(m))
